@@ -20,6 +20,7 @@
 (*  amtrange  lo                 compressed lo .. lo+255 (native ints)     *)
 (*  script    name, s            type, compressed bytes, size, back        *)
 (*  cscript   bytes              stored compressed script -> script        *)
+(*  csize     bytes              size a stored compressed script claims    *)
 (*  txout     amount, script     compressed txout + truncations/mutations  *)
 (*  utxo      u                  utxo entry value + key                    *)
 (*  keypair   i, j               order of two outpoint keys                *)
@@ -335,6 +336,22 @@ CScriptLaws ==
         \* except a stored compressed key whose x has no point
         /\ (Len(expect.script) > 0 /\ ~(case.bytes[1] \in 2..3 /\ ~OnCurveX(SubSeq(case.bytes, 2, 33)))
                => CompressScript(expect.script) = case.bytes)
+
+\* size fields alone, including fields that claim more than is there
+CSizeStrings ==
+    { << >>, <<0>>, <<1>>, <<2>>, <<5>>, <<6>>, <<7>>, <<7, 0>>, <<8, 0>>, <<128>>, <<255, 255>>,
+      Huge63, VMax, VLQ(Two31), VLQ(Two63), VLQ(MaxI64), VLQ(Two32), Overlong,
+      Huge63 \o H20(1), VMax \o H20(1), VLQ(FromInt(46)) \o H20(3), VLQ(FromInt(26)) \o H20(3),
+      VLQ(FromInt(27)) \o H20(3), VLQ(FromInt(128)) \o Filler(121), VLQ(FromInt(128)) \o Filler(122),
+      VLQ(FromInt(2097157)) \o H20(5), VLQ(FromInt(2097158)) \o H20(5) }
+CSizeLaws ==
+    case.kind = "csize" =>
+        \* whatever the field holds, the answer never wraps or goes negative: a
+        \* special type, the claimed size when the script fits the string, and
+        \* "one more than there is" otherwise
+        /\ expect.n >= 0
+        /\ (expect.n \in {21, 33} \/ expect.n <= Len(case.bytes) + 10)
+        /\ (expect.big => expect.n = Len(case.bytes) + 1)
 
 -----------------------------------------------------------------------------
 (* compressed txouts *)
@@ -709,7 +726,7 @@ Groups ==
     \cup {[of |-> "amount", g |-> g] : g \in AmountGroups}
     \cup {[of |-> "camount", g |-> g] : g \in 0..3}
     \cup {[of |-> "amtrange", g |-> g] : g \in 0..15}
-    \cup {[of |-> "script", g |-> 0], [of |-> "cscript", g |-> 0], [of |-> "keypair", g |-> 0]}
+    \cup {[of |-> "script", g |-> 0], [of |-> "cscript", g |-> 0], [of |-> "csize", g |-> 0], [of |-> "keypair", g |-> 0]}
     \cup {[of |-> "txout", g |-> i] : i \in 1..Len(AllScripts)}
     \cup {[of |-> "utxo", g |-> h] : h \in HeightClasses}
     \cup {[of |-> "stxo", g |-> h] : h \in HeightClasses}
@@ -755,6 +772,9 @@ PickScript ==
 PickCScript ==
     /\ InGroup("cscript")
     /\ \E b \in CScriptStrings : case' = [kind |-> "cscript", bytes |-> b] /\ expect' = CScriptExpect(b)
+PickCSize ==
+    /\ InGroup("csize")
+    /\ \E b \in CSizeStrings : case' = [kind |-> "csize", bytes |-> b] /\ expect' = ScriptSizeOf(b)
 PickTxOut ==
     /\ InGroup("txout")
     /\ \E a \in TxAmounts \cup {MaxU64, WideAmount} :
@@ -819,7 +839,7 @@ PickChain ==
           case' = [kind |-> "chain", c |-> ChainCase(r)] /\ expect' = ChainExpect(ChainCase(r))
 
 Next == \/ Group \/ PickVLQ \/ PickVLQDec \/ PickVLQRange \/ PickAmount \/ PickCAmount \/ PickAmtRange
-        \/ PickScript \/ PickCScript \/ PickTxOut \/ PickUtxo \/ PickKeyPair \/ PickStxo \/ PickJournal
+        \/ PickScript \/ PickCScript \/ PickCSize \/ PickTxOut \/ PickUtxo \/ PickKeyPair \/ PickStxo \/ PickJournal
         \/ PickBest \/ PickRow \/ PickLegacy \/ PickChain
 
 Spec == Init /\ [][Next]_vars
